@@ -2,8 +2,8 @@
   Property C03 — every well-formed document is accepted and reads to the value it denotes.
 
   The declarative side is `Edn.Spec.Renders`: an inductive relation between values of the data
-  model and the byte strings that spell them (nil, booleans, decimal integers incl. big ones,
-  strings with escapes, characters, keywords, symbols, lists, vectors, sets, maps, tagged
+  model and the byte strings that spell them (nil, booleans, decimal integers incl. big ones, floats, big
+  decimals, strings with escapes, characters, keywords, symbols, lists, vectors, sets, maps, tagged
   elements; every kind of whitespace, commas, comments and discarded forms between forms).
   The theorem quantifies over every derivation, so over documents of every size and shape up
   to the reader's nesting limit.  A float renders the double nearest to the token's exact decimal
